@@ -39,7 +39,10 @@ Definition F_hang_act_peer := 15%N.    Definition F_hang_act_sigterm := 16%N.
 Definition F_hang_clean_2 := 17%N.     Definition F_hang_act_spot := 18%N.
 Definition F_hang_act_foul := 19%N.
 Definition F_graceful := 20%N.
-Definition F_foul_S_chatty := 21%N.   (* -S foul during a long action, chatty spotlight *)
+Definition F_foul_S_chatty := 21%N.
+Definition F_sig_action := 22%N.        (* SIGINT / SIGTERM while a 3 s action runs, cast with spotlights *)
+Definition F_sig_action_nospot := 23%N. (* ... cast without spotlights *)
+Definition F_hup_leader_sig := 24%N.    (* a spotlight whose leader ignores SIGHUP, play ended by a signal *)   (* -S foul during a long action, chatty spotlight *)
 Definition is_hang (f : N) : bool := (13 <=? f)%N && (f <=? 19)%N.
 
 Definition rows_n (n : Z) (rows : list (Z * Z * Z * Z)) : list (Z * Z * Z * Z) :=
@@ -155,6 +158,14 @@ Definition labels_of (f : N) : bool * list label :=
     (false, [LCleanup1 true; LScene; LScene; LScene; LFinP true ENil; LPick CP;
              LFin CS ENil; LPick CS; LFin CA ENil; LPick CA; LFin CK EViol; LPick CK; LDefer true; LCleanup2 true])
   else if (f =? F_sigint)%N || (f =? F_sigterm)%N then
+    (false, [LCleanup1 true; LScene; LQuiesce; LFinP false ENil; LPick CP] ++ tail_ok ++ [LDefer false; LCleanup2 true])
+  else if (f =? F_sig_action)%N || (f =? F_sig_action_nospot)%N then
+    (* the signal arrives while the prompter waits for an action: the spotlight manager
+       (then the audition, the collector) reports nil AHEAD of the prompter; conduct notes
+       it and keeps waiting (commit 19d275f), the prompter ends when the action does *)
+    (false, [LCleanup1 true; LScene; LQuiesce; LFin CS ENil; LPick CS; LFin CA ENil; LPick CA;
+             LFinP false ENil; LPick CP; LPick CS; LPick CA; LFin CK ENil; LPick CK; LDefer false; LCleanup2 true])
+  else if (f =? F_hup_leader_sig)%N then
     (false, [LCleanup1 true; LScene; LQuiesce; LFinP false ENil; LPick CP] ++ tail_ok ++ [LDefer false; LCleanup2 true])
   else if (f =? F_hang_clean_1)%N then (false, [])
   else if (f =? F_hang_clean_2)%N then
